@@ -394,3 +394,38 @@ func H_C18_history() {
 	}
 	verifReach("C18.history.end")
 }
+
+
+// fresh ids are unique per source, not only per node: two formatter nodes of one process (same source) never hand out the
+// same id (A-random: the system's random strings do not repeat)
+func H_C18_fresh_ids_across_nodes() {
+	ids := [4]string{}
+	k := 0
+	mk := func(format Format) *FormatterFilter {
+		return &FormatterFilter{Source: &url.URL{Path: "src"}, Format: format, Predicate: func(ctx context.Context, ce interface{}) (bool, error) {
+			if v, ok := ce.(Event); ok && k < 4 {
+				ids[k] = v.ID
+				k++
+			}
+			return true, nil
+		}}
+	}
+	f1, f2 := mk(FormatJSON), mk(FormatText)
+	ctx := context.Background()
+	for i := 0; i < 2; i++ {
+		for _, f := range []*FormatterFilter{f1, f2} {
+			e := &eventlogger.Event{Type: "t", Formatted: map[string][]byte{}, Payload: &cPlain{}}
+			if _, err := f.Process(ctx, e); err != nil {
+				return // id generation / encoder failures: the single-step harness's subject
+			}
+		}
+	}
+	verifAssert(k == 4, "C18.fresh-ids.all-observed")
+	for i := 0; i < 4; i++ {
+		verifAssert(ids[i] != "", "C18.fresh-ids.non-empty")
+		for j := 0; j < i; j++ {
+			verifAssert(ids[i] != ids[j], "C18.fresh-ids.unique-across-nodes-and-events")
+		}
+	}
+	verifReach("C18.fresh-ids.end")
+}
